@@ -110,7 +110,7 @@ class Report:
                            "witnesses": wits[:5]}, fh, indent=1, default=str)
             paths.append(path)
             print("VIOLATION property=%s replay=%s" % (self.prop, path))
-            sys.stderr.write("  signature: %s\n  first witness: %s\n" % (key, json.dumps(wits[0], default=str)[:1500]))
+            sys.stderr.write("  signature: %s\n  first witness: %s\n" % (key, json.dumps(wits[0], default=str)[:700]))
         nontrivial = len(self.signatures)
         harness_fail = None
         if self.evaluations < 1 or nontrivial < self.min_nontrivial:
